@@ -583,7 +583,7 @@ class Worker:
         if cache is not None and key in cache:
             return cache[key]
         try:
-            tw = twin if slot.fam == "caltrack" else copy.deepcopy(twin)
+            tw = copy.deepcopy(twin)  # always a fresh copy: a reference that predicts must not age the twin
             fresh = self._fresh_data(recipe)
             with self._quiet():
                 res = self._do_predict(tw, slot.fam, fresh, ignore, agg)
@@ -861,7 +861,7 @@ class Worker:
             out["restore_same"] = _cls(e)
         out["doc_digest"] = D.text(txt)
         if slot.gen == 0 and slot.fit_doc is not None:
-            same = json.loads(txt) == json.loads(slot.fit_doc)
+            same = txt == slot.fit_doc  # text, not parsed values: NaN != NaN would fake a difference
             out["same_as_fit"] = same
             if not same:
                 out["fit_diff_paths"] = D.top_paths(D.json_paths_diff(json.loads(slot.fit_doc), json.loads(txt)))
